@@ -22,7 +22,8 @@ CHECK = {
                  "c12_ext_rcode_refuted_prefix", "c12_ext_rcode_kept",
                  "c12_ops_never_panic", "c12_run_never_panics", "c12_no_spurious_truncation_rr",
                  "c12_no_spurious_truncation_rrset", "c12_no_spurious_truncation_question",
-                 "c12_layout_invariant_all_ops", "c12_roundtrip_partial", "c12_component_table_is_rfc_layout"],
+                 "c12_layout_invariant_all_ops", "c12_roundtrip", "c12_header_invariant",
+                 "c12_component_table_is_rfc_layout"],
     "allowed_axioms": [],
     "suites": [{
         "name": "writer",
@@ -70,17 +71,16 @@ MANIFEST = {
                    "finished message, returns in order the questions and the answer/authority/additional records of the abstract "
                    "message of the operations that succeeded, then the OPT and TSIG pseudo-records: names exactly (case-preserving/"
                    "disabled mode) or modulo ASCII case (standard mode), type, class, TTL clamped per RFC 2181, RDATA octets and "
-                   "embedded names; (3) a record/RRset/question operation fails with Truncation only if its UNCOMPRESSED encoding "
+                   "embedded names, and the header id/QR/opcode/AA/TC/RD/RA/Z/RCODE, the OPT record (UDP size, extended-RCODE upper "
+                   "bits) and the unsigned TSIG record of the settings denoted by the operations; (3) a record/RRset/question operation fails with Truncation only if its UNCOMPRESSED encoding "
                    "does not fit between cursor and available space; (4) the finished message never exceeds the limit; a failed "
-                   "operation leaves every field and every octet below the cursor unchanged. PARTIAL: the header id/flag/RCODE "
-                   "octets and the derivation of the OPT/TSIG values from the operations (they are taken from the writer's final "
-                   "state) are not covered by the round-trip theorem; they are decided on every run by the extracted specification "
-                   "(independent decoder + replay of the succeeded operations) on the implementation's output, after an "
-                   "octet-for-octet differential run model vs. crate."),
+                   "operation leaves every field and every octet below the cursor unchanged. The extracted specification "
+                   "(independent decoder + replay of the succeeded operations, which also checks getters and hint vectors) keeps "
+                   "running on the implementation's output on every run, after an octet-for-octet differential run model vs. crate."),
     "level_note": ("Trusted: Coq kernel, ExtrOcamlBasic extraction, the hand-written model's correspondence to the Rust code "
                    "(differentially tested on ~3000 operation sequences per quick run, whole buffer compared), the regenerated "
                    "tables (the component table is PROVED equal to the RFC layout of the specification). Assumed of callers: names "
-                   "are valid Names (labels 1..63 octets, <= 255 octets), types/classes are u16, RDATA <= 65535 octets, octets < 256. "
+                   "are valid Names (labels 1..63 octets, <= 255 octets), types/classes/id are u16, opcode and RCODE 4 bits, RDATA <= 65535 octets, octets < 256. "
                    "Signing TSIG modes are outside the model. The OPT-TTL defect (extended RCODE >= 2048 lost) is repaired "
                    "by a fix: commit; the model follows the repaired code and keeps a regression theorem about the old one."),
     "technique": "machine-checked proof in Coq (invariants over all operation sequences, refinement to an abstract message, decoder round trip) + model/implementation correspondence check + extracted specification decoder as oracle",
